@@ -198,6 +198,60 @@ def check_many(arg):
     return [], 1
 
 
+def table_ports():
+    """every port number of the library's own keyword tables (read from the source), so that entries are rendered with keywords wherever a table has one"""
+    import ast
+    from pyvc import loader
+    nums = set()
+    tree = ast.parse(open(os.path.join(loader.REPO, "cisco_acl", "port_name.py")).read())
+    for n in ast.walk(tree):
+        if isinstance(n, ast.Dict):
+            for v in n.values:
+                if isinstance(v, ast.Constant) and isinstance(v.value, int) and not isinstance(v.value, bool) and 0 < v.value < 65536:
+                    nums.add(v.value)
+    return sorted(nums)
+
+
+def check_named(arg):
+    """entries whose ports have keywords in some version's table: the pieces (compared as objects, i.e. as port numbers) are exactly the single-port
+    entries of the original, whatever the version spells them like"""
+    import cisco_acl
+    version, proto, route, port_nr, dports = arg
+    line = f"permit {proto} any eq 1 2 any eq {' '.join(map(str, dports))}"
+    fails = []
+
+    def bad(kind, what):
+        fails.append(dict(key=f"bounded/ungroup_ports:named:{kind}:{route}", what=what, inputs=dict(line=line, version=version, route=route, port_nr=port_nr),
+                          cmd=("import sys; sys.path.insert(0, 'props'); import C19\n"
+                               f"fails, _ = C19.check_named({arg!r})\nprint([f['what'] for f in fails]); sys.exit(1 if fails else 0)\n")))
+    kw = dict(platform="ios", version=version, port_nr=port_nr)
+    try:
+        if route == "ace":
+            ace = cisco_acl.Ace(line, **kw)
+            opt0 = ace.option.line
+            parts = ace.ungroup_ports()
+        else:
+            if route == "acl-text":
+                box = cisco_acl.Acl("ip access-list extended X\n " + line, **kw)
+            elif route == "acegroup-text":
+                box = cisco_acl.AceGroup(line, **kw)
+            else:       # the entry is built first (no version given) and handed to a container that has one
+                box = cisco_acl.Acl(name="X", type="extended", items=[cisco_acl.Ace(line, platform="ios", port_nr=port_nr)], **kw)
+            opt0 = box.items[0].option.line
+            box.ungroup_ports()
+            parts = list(box.items)
+    except Exception as ex:
+        bad("error", f"{route} {line!r} version={version!r} port_nr={port_nr}: {type(ex).__name__}: {str(ex)[:160]}")
+        return fails, 1
+    got = sorted((tuple(p.srcport.ports), tuple(p.dstport.ports)) for p in parts if isinstance(p, cisco_acl.Ace))
+    want = sorted(((a,), (b,)) for a in (1, 2) for b in dports)
+    if got != want:
+        bad("pieces", f"{route} {line!r} version={version!r} port_nr={port_nr}: pieces carry the ports {got[:6]}, expected {want[:6]}; lines {[p.line for p in parts][:4]}")
+    elif any(p.option.line != opt0 or p.protocol.name != proto or p.srcaddr.line != "any" or p.dstaddr.line != "any" for p in parts):
+        bad("field-changed", f"{route} {line!r} version={version!r}: a piece changes a field other than the ports: {[p.line for p in parts][:4]}")
+    return fails, 1
+
+
 def check_group_fields(arg):
     """pieces keep what the text does not show: members of referenced address groups, notes, numeric switches, sequence"""
     import cisco_acl
@@ -276,6 +330,24 @@ def main(chk):
     chk.add_bounded("Ace.ungroup_ports: pieces keep group members, note, switches, sequence, platform", len(cases), sum(d for _, d in res),
                     "entries with address groups on both sides (members attached) x 4 source x 4 destination port expressions x 2 platforms", viol, time.time() - t0,
                     [list(cases[2])], exhaustive=True)
+    t0 = time.time()
+    nums = table_ports()
+    chunks = [tuple(nums[i:i + 3]) for i in range(0, len(nums), 3)]
+    chunks = [c if len(c) > 1 else c + (65000,) for c in chunks]
+    chunks += [tuple(reversed(c)) for c in chunks[::4]]
+    cases = [(v, pr, route, nr, c) for v in ("0", "12.4", "15.2(02)SY", "16.09.06") for pr in ("tcp", "udp") for route in ("ace", "acl-text", "acegroup-text", "acl-objects")
+             for nr in (False, True) for c in chunks]
+    if chk.tier == "quick":
+        cases = [c for c in cases if c[2] in ("ace", "acl-objects") or c[3] is False]
+    res = pmap(check_named, cases)
+    viol = 0
+    for fails, _ in res:
+        for f in fails:
+            viol += 1
+            chk.finding(f["key"], f["what"], inputs=f["inputs"], cmd=f.get("cmd"), key=f["key"])
+    chk.add_bounded("ungroup_ports on entries whose ports have keywords: pieces compared as port numbers, per software version", len(cases), len(cases),
+                    f"{len(nums)} port numbers of the library's keyword tables in groups of 3 (and reversed) x 4 versions x tcp/udp x Ace / Acl from text / AceGroup from text / "
+                    "Acl from objects x port_nr", viol, time.time() - t0, [list(cases[5])], exhaustive=True)
     chk.assumptions += ["Ace.ungroup_ports is object-graph code (copy(), items setter): its contract is checked natively, not proved"]
     return chk.finish("other",
                       "Deductive: lemma L19.replace (replacing a rule by adjacent same-action rules whose union is the rule keeps every first-match decision). Bounded "
